@@ -196,7 +196,12 @@ def runCase (line : String) : String :=
       let v := variant.toList.headD 'p'
       let phases := if v = 'r' || v = 'f' then (variant.drop 1).toString.toNat! + 1 else 1
       let wk := if v = 'w' || v = 'r' || v = 'f' then g * phases else 0
-      s!"ids={g * per.toNat! * phases} dup=0 zero=0 wk={wk} wdup=0\treplay=ok\tnt=1"
+      if v = 'x' then
+        -- two generators (the provider's processor was replaced in between): each hands out 1..n,
+        -- ids are unique per pool only — the second n ids repeat the first
+        s!"ids={2 * g * per.toNat!} dup={g * per.toNat!} zero=0 wk=0 wdup=0\treplay=ok"
+      else
+      s!"ids={g * per.toNat! * phases} dup=0 zero=0 wk={wk} wdup=0\treplay=ok"
     | [mode, threads, iters, _seed, roles] =>
       let threads := threads.toNat!
       let iters := iters.toNat!
